@@ -289,11 +289,24 @@ def parse_module(text):
             i+=1
             while not lines[i].startswith('}'):
                 body.append(lines[i]); i+=1
-            parse_func(m, hdr, body)
+            try:
+                parse_func(m, hdr, body)
+            except SyntaxError as e:
+                # a function using something outside the encodable subset (x86_fp80, vectors, inline asm): keep it as an external
+                # declaration, so that CALLING it is reported as not encodable while the rest of the module stays usable
+                if not any(tok in '\n'.join(body) for tok in ('x86_fp80', 'asm ', '<2 x', '<4 x', '<8 x', '<16 x')): raise
+                nm = re.search(r'@("[^"]+"|[\w.$-]+)\s*\(', hdr)
+                if nm is None: raise
+                name = nm.group(1).strip('"')
+                m.funcs.pop(name, None)
+                m.decls.setdefault(name, None)
+                getattr(m, 'unencodable', None) is None and setattr(m, 'unencodable', {})
+                m.unencodable[name] = str(e)[:200]
         i+=1
     return m
 
 def parse_global(m, ln):
+    ln = re.sub(r'comdat\(\$("[^"]*"|[^)]*)\)', 'comdat', ln)
     p = P(tokenize(ln))
     name = p.next()[1][1:].strip('"'); p.expect('=')
     kind=None; ext=False
